@@ -26,121 +26,130 @@ def run(ctx):
     chk.ground('fr::MODULUS literal = r of BLS12-381', rv == ref.R_ORDER, hex(rv))
     chk.ground('BLS_X = 0xd201000000010000 and negative', isinstance(bx, BV) and bx.v == ref.BLS_X and bneg is True, repr(bx))
     q, r = ref.Q, ref.R_ORDER
-    D = models.UnitGroupDomain(qv)
-    N = qv ** 12 - 1
-    zf = z3.Bool('f_is_zero')
-    # The input is f = g^e for a SYMBOLIC integer e (g a formal generator of the cyclic group Fq12^*): every value the code computes
-    # is g^(c*e) with c a concrete integer (all operations are linear on exponents), and every data-dependent test the code may make
-    # -- is_zero / == on Fq12, "c1 = 0" (f in Fq6), "c0 = 0" (f in w*Fq6) -- is a congruence on c*e, i.e. a predicate on e.
-    e_sym = z3.Int('e')
-    M6 = qv ** 6 + 1
-    from mirsym.sym import Opaque
-    import math
-
-    def times_e(c):
-        """c * e for an exponent coefficient c (python int, or an if-then-else tree of them produced by a merge)"""
-        if isinstance(c, int):
-            return z3.IntVal(c) * e_sym
-        if z3.is_int_value(c):
-            return c * e_sym
-        if z3.is_app(c) and c.decl().kind() == z3.Z3_OP_ITE:
-            return z3.If(c.arg(0), times_e(c.arg(1)), times_e(c.arg(2)))
-        return c * e_sym
-
-    def congruent(c, residue, modulus):
-        """c * e == residue (mod modulus) as a predicate on e"""
-        if isinstance(c, int) and residue == 0:
-            d = modulus // math.gcd(c % modulus, modulus)
-            return z3.BoolVal(True) if d == 1 else (e_sym % z3.IntVal(d) == 0)
-        if isinstance(c, int):
-            return (z3.IntVal(c % modulus) * e_sym) % z3.IntVal(modulus) == z3.IntVal(residue)
-        return times_e(c) % z3.IntVal(modulus) == z3.IntVal(residue)
-
-    def fe_field(v, i):
-        if isinstance(v, GE) and v.ty == 'fq12::Fq12' and i in (0, 1):
-            return Opaque(('fq6-half', i, v))
-        return None
-
-    def h_fq6_is_zero(ex_, st_, m, a):
-        from mirsym.models import deref as _d
-        t = _d(ex_, st_, a[0])
-        if isinstance(t, Opaque) and t.what[0] == 'fq6-half':
-            _, i, v = t.what
-            c = v.c[0]
-            if i == 1:
-                return z3.Or(C.mk(v.tag), congruent(c, 0, M6))                 # c1 = 0  <=>  f = 0 or f in Fq6   <=>  (q^6+1) | c e
-            return z3.Or(C.mk(v.tag), congruent(c, M6 // 2, M6))               # c0 = 0  <=>  f = 0 or f in w Fq6 <=>  f^(q^6-1) = -1
-        return NotImplemented
-
-    def h_is_zero(ex_, st_, m, a):
-        from mirsym.models import deref as _d
-        v = _d(ex_, st_, a[0])
-        return C.mk(v.tag) if isinstance(v, GE) else NotImplemented
-
-    def h_eq(ex_, st_, m, a):
-        from mirsym.models import deref as _d
-        x, y = _d(ex_, st_, a[0]), _d(ex_, st_, a[1])
-        if not (isinstance(x, GE) and isinstance(y, GE)):
-            return NotImplemented
-        tx, ty_ = C.mk(x.tag), C.mk(y.tag)
-        return z3.Or(z3.And(tx, ty_), z3.And(z3.Not(tx), z3.Not(ty_), congruent(x.c[0] - y.c[0], 0, N)))
-
-    def h_ne(ex_, st_, m, a):
-        r_ = h_eq(ex_, st_, m, a)
-        return NotImplemented if r_ is NotImplemented else z3.Not(r_)
-    ex = C.new_executor(ctx, [(r'<fq6::Fq6 as (?:ff::)?Field>::is_zero', h_fq6_is_zero), (r'<fq12::Fq12 as (?:ff::)?Field>::is_zero', h_is_zero),
-                              (r'<fq12::Fq12 as PartialEq>::eq', h_eq), (r'<fq12::Fq12 as PartialEq>::ne', h_ne)] + D.models())
-    ex.fe_field = fe_field
-    st = State()
-    rf = ex.alloc(st, D.mk(1, zf))
-    res = ex.call(st, '<Bls12 as Engine>::final_exponentiation', [rf])
-    if not isinstance(res, Enum):
-        raise Inconclusive('final_exponentiation returned %r' % (res,))
-    out = res.payload['Some'][0]
-    E = out.c[0]
     want = 3 * ((q ** 12 - 1) // r)
-    symbolic_E = None
-    if not isinstance(E, int):
-        Es = z3.simplify(E) if z3.is_expr(E) else E
-        if z3.is_expr(Es) and z3.is_int_value(Es):
-            E = Es.as_long()
-        else:
-            # the exponent coefficient depends on data-dependent tests (predicates on e, on the zero flag): the claim is then
-            # for every e:  E(e) * e = want * e  (mod q^12-1)  whenever the result is Some
-            symbolic_E = E
-            chk.must_unsat('for every input f = g^e != 0: result exponent E(e)*e == (3(q^12-1)/r)*e (mod q^12-1) on every branch',
-                           z3.And(z3.Not(zf), res.disc == 1, (times_e(E) - z3.IntVal(want) * e_sym) % z3.IntVal(N) != 0), group='exponent', meta='symbolic-exponent')
+    sym = {}
+
+    def _symbolic():
+        D = models.UnitGroupDomain(qv)
+        N = qv ** 12 - 1
+        zf = z3.Bool('f_is_zero')
+        # The input is f = g^e for a SYMBOLIC integer e (g a formal generator of the cyclic group Fq12^*): every value the code computes
+        # is g^(c*e) with c a concrete integer (all operations are linear on exponents), and every data-dependent test the code may make
+        # -- is_zero / == on Fq12, "c1 = 0" (f in Fq6), "c0 = 0" (f in w*Fq6) -- is a congruence on c*e, i.e. a predicate on e.
+        e_sym = z3.Int('e')
+        M6 = qv ** 6 + 1
+        from mirsym.sym import Opaque
+        import math
+
+        def times_e(c):
+            """c * e for an exponent coefficient c (python int, or an if-then-else tree of them produced by a merge)"""
+            if isinstance(c, int):
+                return z3.IntVal(c) * e_sym
+            if z3.is_int_value(c):
+                return c * e_sym
+            if z3.is_app(c) and c.decl().kind() == z3.Z3_OP_ITE:
+                return z3.If(c.arg(0), times_e(c.arg(1)), times_e(c.arg(2)))
+            return c * e_sym
+
+        def congruent(c, residue, modulus):
+            """c * e == residue (mod modulus) as a predicate on e"""
+            if isinstance(c, int) and residue == 0:
+                d = modulus // math.gcd(c % modulus, modulus)
+                return z3.BoolVal(True) if d == 1 else (e_sym % z3.IntVal(d) == 0)
+            if isinstance(c, int):
+                return (z3.IntVal(c % modulus) * e_sym) % z3.IntVal(modulus) == z3.IntVal(residue)
+            return times_e(c) % z3.IntVal(modulus) == z3.IntVal(residue)
+
+        def fe_field(v, i):
+            if isinstance(v, GE) and v.ty == 'fq12::Fq12' and i in (0, 1):
+                return Opaque(('fq6-half', i, v))
+            return None
+
+        def h_fq6_is_zero(ex_, st_, m, a):
+            from mirsym.models import deref as _d
+            t = _d(ex_, st_, a[0])
+            if isinstance(t, Opaque) and t.what[0] == 'fq6-half':
+                _, i, v = t.what
+                c = v.c[0]
+                if i == 1:
+                    return z3.Or(C.mk(v.tag), congruent(c, 0, M6))                 # c1 = 0  <=>  f = 0 or f in Fq6   <=>  (q^6+1) | c e
+                return z3.Or(C.mk(v.tag), congruent(c, M6 // 2, M6))               # c0 = 0  <=>  f = 0 or f in w Fq6 <=>  f^(q^6-1) = -1
+            return NotImplemented
+
+        def h_is_zero(ex_, st_, m, a):
+            from mirsym.models import deref as _d
+            v = _d(ex_, st_, a[0])
+            return C.mk(v.tag) if isinstance(v, GE) else NotImplemented
+
+        def h_eq(ex_, st_, m, a):
+            from mirsym.models import deref as _d
+            x, y = _d(ex_, st_, a[0]), _d(ex_, st_, a[1])
+            if not (isinstance(x, GE) and isinstance(y, GE)):
+                return NotImplemented
+            tx, ty_ = C.mk(x.tag), C.mk(y.tag)
+            return z3.Or(z3.And(tx, ty_), z3.And(z3.Not(tx), z3.Not(ty_), congruent(x.c[0] - y.c[0], 0, N)))
+
+        def h_ne(ex_, st_, m, a):
+            r_ = h_eq(ex_, st_, m, a)
+            return NotImplemented if r_ is NotImplemented else z3.Not(r_)
+        ex = C.new_executor(ctx, [(r'<fq6::Fq6 as (?:ff::)?Field>::is_zero', h_fq6_is_zero), (r'<fq12::Fq12 as (?:ff::)?Field>::is_zero', h_is_zero),
+                                  (r'<fq12::Fq12 as PartialEq>::eq', h_eq), (r'<fq12::Fq12 as PartialEq>::ne', h_ne)] + D.models())
+        ex.fe_field = fe_field
+        st = State()
+        rf = ex.alloc(st, D.mk(1, zf))
+        res = ex.call(st, '<Bls12 as Engine>::final_exponentiation', [rf])
+        if not isinstance(res, Enum):
+            raise Inconclusive('final_exponentiation returned %r' % (res,))
+        out = res.payload['Some'][0]
+        E = out.c[0]
+        symbolic_E = None
+        if not isinstance(E, int):
+            Es = z3.simplify(E) if z3.is_expr(E) else E
+            if z3.is_expr(Es) and z3.is_int_value(Es):
+                E = Es.as_long()
+            else:
+                # the exponent coefficient depends on data-dependent tests (predicates on e, on the zero flag): the claim is then
+                # for every e:  E(e) * e = want * e  (mod q^12-1)  whenever the result is Some
+                symbolic_E = E
+                chk.must_unsat('for every input f = g^e != 0: result exponent E(e)*e == (3(q^12-1)/r)*e (mod q^12-1) on every branch',
+                               z3.And(z3.Not(zf), res.disc == 1, (times_e(E) - z3.IntVal(want) * e_sym) % z3.IntVal(N) != 0), group='exponent', meta='symbolic-exponent')
+                chk.must_unsat('result is None exactly when f = 0', z3.Xor(res.disc == 0, zf), group='case-structure')
+                chk.panic_obligations(ex, 'final_exponentiation')
+                # the generic branch (e = 1: no special structure) still has to give the exact integer
+                Eg = z3.simplify(z3.substitute(E, (e_sym, z3.IntVal(1)), (zf, z3.BoolVal(False))))
+                E = Eg.as_long() if z3.is_int_value(Eg) else None
+                if E is None:
+                    raise Inconclusive('result exponent on the generic branch is not an integer: %s' % str(Eg)[:200])
+        chk.bounds = {'loops': 'exp_by_x: pow over 64 exponent bits, applied as multiplication of the exponent (leaf contract of Field::pow)',
+                      'inputs': 'all units of Fq12 (formal generator) and the zero element (symbolic flag)'}
+        Ez, Nz = z3.IntVal(E), z3.IntVal(N)
+        chk.must_unsat('exponent == 3(q^12-1)/r (mod q^12-1)', (Ez - z3.IntVal(want)) % Nz != 0, group='exponent')
+        chk.must_unsat('r * E == 0 (mod q^12-1): image consists of r-th roots of unity', (z3.IntVal(r) * Ez) % Nz != 0, group='exponent')
+        for d, nm in [(1, 'Fq'), (2, 'Fq2'), (4, 'Fq4'), (6, 'Fq6')]:
+            chk.must_unsat('(q^%d-1) divides E: units of %s (= g^(k(q^12-1)/(q^%d-1))) map to 1' % (d, nm, d),
+                           Ez % z3.IntVal(q ** d - 1) != 0, group='exponent')
+        chk.must_unsat('E != 0 mod (q^12-1): the map is not constant', Ez % Nz == 0, group='exponent')
+        chk.must_unsat('gcd structure: E = 3 * (q^12-1)/r exactly as integers below the modulus', Ez != z3.IntVal(want % N), group='exponent')
+        if symbolic_E is None:
             chk.must_unsat('result is None exactly when f = 0', z3.Xor(res.disc == 0, zf), group='case-structure')
+        chk.must_sat('both outcomes reachable (Some)', res.disc == 1)
+        chk.must_sat('both outcomes reachable (None)', res.disc == 0)
+        if symbolic_E is None:
             chk.panic_obligations(ex, 'final_exponentiation')
-            # the generic branch (e = 1: no special structure) still has to give the exact integer
-            Eg = z3.simplify(z3.substitute(E, (e_sym, z3.IntVal(1)), (zf, z3.BoolVal(False))))
-            E = Eg.as_long() if z3.is_int_value(Eg) else None
-            if E is None:
-                raise Inconclusive('result exponent on the generic branch is not an integer: %s' % str(Eg)[:200])
-    chk.bounds = {'loops': 'exp_by_x: pow over 64 exponent bits, applied as multiplication of the exponent (leaf contract of Field::pow)',
-                  'inputs': 'all units of Fq12 (formal generator) and the zero element (symbolic flag)'}
-    Ez, Nz = z3.IntVal(E), z3.IntVal(N)
-    chk.must_unsat('exponent == 3(q^12-1)/r (mod q^12-1)', (Ez - z3.IntVal(want)) % Nz != 0, group='exponent')
-    chk.must_unsat('r * E == 0 (mod q^12-1): image consists of r-th roots of unity', (z3.IntVal(r) * Ez) % Nz != 0, group='exponent')
-    for d, nm in [(1, 'Fq'), (2, 'Fq2'), (4, 'Fq4'), (6, 'Fq6')]:
-        chk.must_unsat('(q^%d-1) divides E: units of %s (= g^(k(q^12-1)/(q^%d-1))) map to 1' % (d, nm, d),
-                       Ez % z3.IntVal(q ** d - 1) != 0, group='exponent')
-    chk.must_unsat('E != 0 mod (q^12-1): the map is not constant', Ez % Nz == 0, group='exponent')
-    chk.must_unsat('gcd structure: E = 3 * (q^12-1)/r exactly as integers below the modulus', Ez != z3.IntVal(want % N), group='exponent')
-    if symbolic_E is None:
-        chk.must_unsat('result is None exactly when f = 0', z3.Xor(res.disc == 0, zf), group='case-structure')
-    chk.must_sat('both outcomes reachable (Some)', res.disc == 1)
-    chk.must_sat('both outcomes reachable (None)', res.disc == 0)
-    if symbolic_E is None:
-        chk.panic_obligations(ex, 'final_exponentiation')
-    chk.extra['exponent_bits'] = int(E).bit_length()
-    chk.extra['group_ops_interpreted'] = D.ops
-    chk.assumptions += ['Fq12 mul/square/inverse/conjugate/frobenius_map/pow act on exponents as x+y, 2x, -x, q^6 x, q^k x, e x '
-                        '(C09: ring identities, conjugate = Frobenius^6, Frobenius = x^(q^k)); Fq12^* is cyclic of order q^12-1',
-                        'Field::pow(exp) = self^exp (ff-zeroize 0.6.3 default method; leaf contract)']
-    chk.trusted += ['rustc MIR printer', 'mirsym', 'z3']
-    chk.add_executor(ex)
-    chk.add_executor(ex0)
+        chk.extra['exponent_bits'] = int(E).bit_length()
+        chk.extra['group_ops_interpreted'] = D.ops
+        chk.assumptions += ['Fq12 mul/square/inverse/conjugate/frobenius_map/pow act on exponents as x+y, 2x, -x, q^6 x, q^k x, e x '
+                            '(C09: ring identities, conjugate = Frobenius^6, Frobenius = x^(q^k)); Fq12^* is cyclic of order q^12-1',
+                            'Field::pow(exp) = self^exp (ff-zeroize 0.6.3 default method; leaf contract)']
+        chk.trusted += ['rustc MIR printer', 'mirsym', 'z3']
+        chk.add_executor(ex)
+        chk.add_executor(ex0)
+        sym['E'] = E
+    try:
+        _symbolic()
+    except Inconclusive as e_:
+        ctx.inconclusive('encoder: %s' % e_)
+    E = sym.get('E', 0)
     chk.discharge()
     bad = native_differential(ctx, want)
     for (nm, x, got, wtxt) in bad[:3]:
